@@ -385,6 +385,25 @@ func (e *Ev) binop(op token.Token, l, r Val, n ast.Node) Val {
 		}
 		return VBool{t}
 	}
+	if e.contract && (op == token.EQL || op == token.NEQ) {
+		// in clauses a bound reference variable (an integer) may be compared with a reference
+		li, lok := l.(VInt)
+		rr, rok := r.(VRef)
+		if !lok || !rok {
+			if lr, ok := l.(VRef); ok {
+				if ri, ok := r.(VInt); ok {
+					li, rr, lok, rok = ri, lr, true, true
+				}
+			}
+		}
+		if lok && rok {
+			t := sEq(li.T, rr.T)
+			if op == token.NEQ {
+				t = sNot(t)
+			}
+			return VBool{t}
+		}
+	}
 	switch a := l.(type) {
 	case VInt:
 		b, ok := r.(VInt)
